@@ -2,6 +2,7 @@ import PsyVerif.Lemmas.DeclsGen
 import PsyVerif.Lemmas.DeclsSort
 import PsyVerif.Lemmas.DeclsStable
 import PsyVerif.Lemmas.DeclsModule3
+import PsyVerif.Lemmas.DeclsExpr
 /-! # C03 — Re-writing is stable after one round trip
 
 Model: `PsyVerif/Model/Decls.lean`: `writeUnitPinned` (pinned `FortranWriter`: access-statement name
@@ -40,6 +41,17 @@ What is proved for all inputs
 * `C03_stable_unit`, `C03_stable_partial`: a file = list of scoping units (modules, routines, each
   with the host names it sees): if every unit meets the decidable `StableSide`, the second write of the
   file equals the first.
+* Expressions inside statements / initial values / array bounds (`Lemmas/DeclsExpr.lean`, model = the shared
+  `C02` expression model): `C03_prec_order`, `C03_writer_paren_tables`, `C03_reader_tables` — the tables
+  `Gen/DeclsOps.lean`, regenerated on every run by RUNNING the live writer on every two-operator tree (and
+  the three-level sign shapes) and the live reader on every two-operator token string, equal what the model
+  computes (kernel-evaluated); `C03_expr_text_stable`: every tree of unbounded depth with canonical literals
+  outside the class `C02.exposed` is written, re-read and written to the same text; `C03_two_operator_trees`:
+  all 819 two-operator trees are (including the exposed ones); `C03_expr_statement_counterexample`: the class
+  `exposed` is really unstable (`a + (+b)*c` is written `a + +b * c`, not an expression; `a == (+b)*c` gets
+  parentheses on the second write) — known finding C03-sign-before-mul; `C03_stmt_stable`: a statement =
+  skeleton + expression holes is stable when its holes are; `C03_select_case_stable`: the conditions
+  `_process_case_value(_list)` builds for SELECT CASE (value lists, ranges, logical selectors) are.
 The one hypothesis checked on the written text is `cleanText` (no forward reference, every name of an
 access statement known, arguments declared); that the re-read table has distinct names is derived
 (`canon_nodup`).  The host names (`outer`) of a contained routine are a parameter: that re-reading the
@@ -573,6 +585,73 @@ theorem C03_stable_partial (f : List Decls.Unit) (hall : ∀ u ∈ f, Wf u ∧ S
     mapUnits (roundTrip writeUnit) f = mapUnits writeUnit f :=
   mapUnits_congr f (fun u hu => C03_stable_unit u (hall u hu).1 (hall u hu).2)
 
+
+/-! ### expressions inside statements, initial values and array bounds -/
+
+/-- the live `precedence()` table orders the 16 operator strings exactly as the model's `OpTok.prec`
+(every pair compared: `<`, `=`, `>`) — a renumbering that keeps the order is harmless, anything else is not -/
+theorem C03_prec_order : orderOf Gen.precTable = orderOf (optoks16.map C02.OpTok.prec) := by decide +kernel
+
+/-- the parenthesis decisions of the LIVE writer on every (parent, child, side) of binary / unary operators and
+signed literals, and on the three-level sign shapes, are the model's `parenBin` / `parenSignM .narrow` -/
+theorem C03_writer_paren_tables :
+    Gen.parenBinBin = mParenBinBin ∧ Gen.parenUnBin = mParenUnBin ∧ Gen.parenLitBin = mParenLitBin ∧
+    Gen.parenBinUn = mParenBinUn ∧ Gen.parenUnUn = mParenUnUn ∧ Gen.parenSign3 = mParenSign3 := by
+  decide +kernel
+
+/-- what the LIVE reader makes of every `b C d P a` and `U b P a` is what the model's `parse` makes of it -/
+theorem C03_reader_tables : Gen.readerNest = mReaderNest ∧ Gen.readerPrefix = mReaderPrefix := by
+  decide +kernel
+
+/-- Full statement for expressions: whatever tree the reader can produce is written stably. -/
+def C03_expr_statement : Prop :=
+  ∀ e : C02.Expr, C02.wf .expr e = true → C02.litsCanonical e = true → textStable e = true
+
+def cexPlusMul : C02.Expr := .bin .add va (.bin .mul (.un .plus vb) vd)
+def cexRelMul : C02.Expr := .bin .eq va (.bin .mul (.un .plus vb) vd)
+
+/-- FALSE of the HEAD writer: `a + ((+b)*d)` is written `a + +b * d`, which is not an expression;
+`a == ((+b)*d)` is written `a == +b * d`, re-read as `a == +(b*d)` and written `a == (+b * d)`. -/
+theorem C03_expr_sign_counterexample :
+    textStable cexPlusMul = false ∧ textStable cexRelMul = false ∧
+    C02.parse (C02.render .narrow .top cexPlusMul) = none ∧
+    C02.exposed .top cexPlusMul = true ∧ C02.exposed .top cexRelMul = true := by decide +kernel
+
+theorem C03_expr_statement_counterexample : ¬ C03_expr_statement := by
+  intro h
+  have := h cexPlusMul (by decide) (by decide)
+  rw [C03_expr_sign_counterexample.1] at this
+  exact Bool.noConfusion this
+
+/-- the written text of `e` is read back as `e` itself -/
+theorem C03_expr_reread (e : C02.Expr) (h : ExprOK e = true) :
+    C02.parse (C02.render .narrow .top e) = some e := by
+  simp only [ExprOK, Bool.and_eq_true, Bool.not_eq_true'] at h
+  exact reread_exact e h.1.1 h.1.2 h.2
+
+/-- **Expression text is stable** (all constructs of the expression model, unbounded depth): outside the
+decidable class `exposed`, write–read–write gives the first text again. -/
+theorem C03_expr_text_stable (e : C02.Expr) (h : ExprOK e = true) : textStable e = true :=
+  exprOK_stable e h
+
+/-- every two-operator tree — all (parent, child, side) over the 15 binary and 3 unary operators,
+including the `exposed` ones and the type-incorrect ones — is written stably -/
+theorem C03_two_operator_trees : twoOpTrees.all textStable = true := by decide +kernel
+
+/-- **Statements**: a statement / declaration whose holes are stable expressions is read back as itself,
+so the second write is the first. -/
+theorem C03_stmt_stable (s : XStmt) (h : ∀ e ∈ s.holes, ExprOK e = true) :
+    (XStmt.read s.write).map XStmt.write = some s.write := by
+  simp [xstmt_read_write s h]
+
+/-- **SELECT CASE**: the condition the reader builds for a CASE (values compared with `==` / `.EQV.`, ranges
+with `>=` `<=` `.AND.`, items joined by right-nested `.OR.`) from sign-free stable pieces is stable. -/
+theorem C03_select_case_stable (logical : Bool) (sel : C02.Expr) (items : List CaseItem) (c : C02.Expr)
+    (hs : Plain sel = true) (hi : ∀ i ∈ items, PlainItem i = true)
+    (hc : caseList logical sel items = some c) : ExprOK c = true ∧ textStable c = true := by
+  have := plain_exprOK c (caseList_plain logical sel items c hs hi hc)
+  exact ⟨this, exprOK_stable c this⟩
+
 /-! ## non-vacuity and sanity evaluations -/
 
 /-- a routine with imports, constants given out of order, arguments, a derived type and locals -/
@@ -621,5 +700,18 @@ example : (accessLists mOk).1 = [30, 12, 4] ∧ stable writeUnit mOk = true := b
 /-- here the table order of the three public names (routine, import, interface) is already the order
 in which the reader re-creates them, so the pinned writer is stable too; `cexAccess` is where it is not -/
 example : stable writeUnitPinned mOk = true := by decide
+
+/-! expressions -/
+example : twoOpTrees.length = 819 := by decide +kernel
+example : ExprOK (.bin .or (.bin .eqv va vb) vd) = true ∧ ExprOK cexPlusMul = false := by decide +kernel
+example : Gen.precTable.length = 16 ∧ Gen.parenBinBin.length = 675 ∧ Gen.readerNest.length = 225 := by decide +kernel
+/-- the tables are not trivially equal: the seeded swap of the `.EQV.`/`.OR.` levels is rejected -/
+example : orderOf [6, 6, 7, 7, 8, 4, 4, 4, 4, 4, 4, 3, 2, 0, 1, 1] ≠ orderOf (optoks16.map C02.OpTok.prec) := by
+  decide +kernel
+example : (XStmt.read (XStmt.write ⟨7, [.bin .or (.bin .eqv va vb) vd, .bin .add va vb]⟩)).map XStmt.write =
+    some (XStmt.write ⟨7, [.bin .or (.bin .eqv va vb) vd, .bin .add va vb]⟩) := by decide +kernel
+example : caseList true va [.value vb, .value vd] = some (.bin .or (.bin .eqv va vb) (.bin .eqv va vd)) := by decide
+example : (caseList false va [.range (some vb) (some vd), .value vb, .range none (some vd)]).map textStable = some true := by
+  decide +kernel
 
 end C03
